@@ -40,6 +40,10 @@ def run(c):
         cases.append({"id": len(cases), "fault": "execve", "sync": "none", "userns": False, "files_n": n})
         if n % 3 == 0:
             cases.append({"id": len(cases), "fault": "none", "sync": "ok", "userns": False, "files_n": n})
+    for rep in range(2 if c.quick() else 10):
+        for fault in ("execve", "chdir", "dup3"):
+            for sync in ("none", "ok", "fail"):
+                cases.append({"id": len(cases), "fault": fault, "sync": sync, "userns": False, "ptrace": True})
     cases.append({"id": len(cases), "fault": "ptrace_runner"})
     # the launching process is killed while the callback runs (theorem C07_launcher_death)
     for k in range(4 if c.quick() else 24):
@@ -72,8 +76,9 @@ def run(c):
                 c.finding_or_violation({"kind": "launch-error", "what": "a failing launch step went unreported", "status": o["status"]}, {"observed": o})
             continue
         sync, cb = x["sync"], o["cb"]
-        c.count((fault, sync, x["userns"], x.get("files_n")), nontrivial=fault != "none" or sync == "fail", klass="%s:%s" % (fault, sync))
-        canon = lambda what, **kw: dict({"kind": "sync-gate", "what": what, "fault": fault, "callback": sync, "userns": x["userns"]}, **kw)
+        c.count((fault, sync, x["userns"], x.get("files_n"), x.get("ptrace")), nontrivial=fault != "none" or sync == "fail", klass="%s:%s" % (fault, sync))
+        canon = lambda what, **kw: dict({"kind": "sync-gate", "what": what, "fault": fault, "callback": sync, "userns": x["userns"]},
+                                        **dict(kw, **({"traced": True} if x.get("ptrace") else {})))
         err = o.get("err")
         # what must happen
         if fault == "none":
